@@ -122,7 +122,7 @@ def identity_maps(c):
     n = c["n"]
     net = c["net"]
     if net == "chain":
-        return {"vin": list(range(n["A"])), "vout": list(range(n["B"]))}
+        return {"vin": list(range(n.get("A", 0))), "vout": list(range(n["B"]))}
     if net == "merge":
         return {"vinA": list(range(n["A"])), "vinB": list(range(n["B"])), "vout": list(range(n["C"]))}
     if net == "split":
@@ -130,6 +130,21 @@ def identity_maps(c):
     if net.startswith("trimer"):
         return {"vinA": list(range(2 * n["A"])), "vinB": list(range(n["B"])), "vout": list(range(n["C"]))}
     return {"vin": list(range(n["A"])), "vout": list(range(n["B"]))}
+
+
+def aux_shapes(c):
+    """(substrates, products) of the auxiliary mapped reactions: influxes have no substrate (every product position
+    is beyond the substrates and enters labelled), effluxes no product."""
+    net = c["net"]
+    if net == "chain":
+        return {"vin": ([], ["A"]), "vout": (["B"], [])}
+    if net == "merge":
+        return {"vinA": ([], ["A"]), "vinB": ([], ["B"]), "vout": (["C"], [])}
+    if net == "split":
+        return {"vinC": ([], ["C"]), "voutA": (["A"], []), "voutB": (["B"], [])}
+    if net.startswith("trimer"):
+        return {"vinA": ([], ["A", "A"]), "vinB": ([], ["B"]), "vout": (["C"], [])}
+    return {"vin": ([], ["A"]), "vout": (["B"], [])}
 
 
 def v1_shape(c):
@@ -202,6 +217,8 @@ def generate(tier):
     for net, opt in nets:
         if net == "chain":
             ns = [{"A": a, "B": b} for a in (1, 2, 3) for b in (1, 2, 3)]
+            if opt in ("none", "bystander"):
+                ns += [{"B": b} for b in (1, 2, 3)]  # unlabelled substrate, labelled product: every position is external
         elif net == "merge":
             ns = [{"A": a, "B": b, "C": a + b} for a in counts for b in counts if a + b <= 4]
             ns += [{"A": 1, "B": 1, "C": 3}, {"A": 2, "B": 1, "C": 2}]
@@ -263,6 +280,16 @@ def check(case):
     if sorted(map(sorted, got)) != sorted(map(sorted, exp)):
         missing = [sorted(e) for e in exp if e not in got][:2]
         return outcome(False, "structure", symptom="wrong-stoichiometry", nontrivial=nt, detail=f"expected isotopomer reactions missing, e.g. {missing} | {txt}")
+    # (1b) the auxiliary mapped reactions: influx positions enter labelled, efflux consumes every pattern
+    for rname, (asubs, aprods) in aux_shapes(case).items():
+        if not any(n.get(x, 0) for x in asubs + aprods):
+            continue  # nothing labelled takes part: the reaction is not expanded
+        got = [frozenset((k, v) for k, v in r.stoichiometry.items() if v != 0) for name, r in raw.items() if name == rname or name.startswith(rname + "__")]
+        exp = expected_reactions(rname, asubs, aprods, n, maps[rname])
+        if sorted(map(sorted, got)) != sorted(map(sorted, exp)):
+            missing = [sorted(e) for e in exp if e not in got][:2]
+            return outcome(False, "structure", symptom="wrong-stoichiometry:influx-or-efflux", nontrivial=nt,
+                           detail=f"{rname}: expected isotopomer reactions {missing} missing; got {[sorted(g) for g in got][:3]} | {txt}")
     # (2) totals and placement
     ic = lm.get_initial_conditions()
     bic = base.get_initial_conditions()
